@@ -240,6 +240,27 @@ def run(args) -> int:
 
     # ---- frame rules: exhaustive small access-pair sets ---------------------------
     fr = probe_json('probe_frames.py', [args.tier, str(args.seed)], timeout=1800)
+    # kernel side of the frame clause: the real rule applications are legal frame steps and the result is saturated,
+    # so by C04_frame_saturation_is_closure the final pairs are exactly the required closure
+    fexprs, fidx = [], []
+    for rec in fr['cases']:
+        if 'steps' in rec and not (byname[rec['logic']]['access'] == 'SerialAccess'):
+            fl = rec['flags']
+            F = f"{{| f_refl := {str(fl[0]).lower()}; f_trans := {str(fl[1]).lower()}; f_sym := {str(fl[2]).lower()} |}}"
+            W = '[' + '; '.join(map(str, rec['branch_worlds'])) + ']'
+            P = '[' + '; '.join(f'({a}, {b})' for a, b in rec['pairs']) + ']'
+            St = '[' + '; '.join(f'({a}, {b})' for a, b in rec['steps']) + ']'
+            fexprs.append(f'match run_steps {F} {W} {P} {St} with Some Q => saturated {F} {W} Q | None => false end')
+            fidx.append(rec)
+    fans = coq_eval_cases('C04', 'From Coq Require Import List.\nFrom PT Require Import Tab.Frame.\nImport ListNotations.\n',
+                          fexprs, shard=800, name='Frames')
+    for rec, ans in zip(fidx, fans):
+        if ans.strip() != 'true' and rec['ok']:
+            rec['ok'] = False
+            rec['why'] = 'illegal-step-or-unsaturated'
+            rec['got'] = rec.get('steps')
+            rec['expected'] = 'legal frame-rule steps ending saturated'
+    chk.notes['frame_runs_kernel_checked'] = len(fidx)
     for rec in fr['cases']:
         chk.case(['frame', rec['logic'], rec['pairs'], rec['worlds']], nontrivial=len(rec['pairs']) > 0,
                  sample=rec if len(chk.samples) < 8 and rec['pairs'] else None)
